@@ -17,6 +17,7 @@ pub mod c15;
 pub mod c16;
 pub mod chopper;
 pub mod endpoints;
+pub mod idle;
 pub mod nodes;
 pub mod pipe;
 pub mod procfs;
